@@ -28,8 +28,7 @@ type TierCfg struct {
 	Shapes     map[string][2]int `json:"shapes"`
 	Rounds     int               `json:"rounds"`
 	Unroll     map[string]int    `json:"unroll"`
-	Solver     string            `json:"solver"`
-	Alt        string            `json:"alt"`
+	Solvers    []string          `json:"solvers"`
 	TimeoutMs  int               `json:"timeout_ms"`
 	Prune      int               `json:"prune_ms"`
 	MaxMake    int               `json:"max_make"`
@@ -144,36 +143,29 @@ func main() {
 		wg.Add(1)
 		go func(w int) {
 			defer wg.Done()
-			var s1, s2 *smt.Solver
-			curS1, curS2 := "", ""
+			var solvers []*smt.Solver
+			cur := ""
 			for j := range jobs {
 				tc := j.tc
-				b1 := tc.Solver
-				if b1 == "" {
-					b1 = "z3"
+				names := tc.Solvers
+				if len(names) == 0 {
+					names = []string{"z3-new", "cvc5-int", "cvc5"}
 				}
-				if b1 != curS1 {
-					if s1 != nil {
-						s1.Close()
+				if strings.Join(names, ",") != cur {
+					for _, sv := range solvers {
+						sv.Close()
 					}
-					s1, err = smt.NewSolver(b1)
-					must(err)
-					curS1 = b1
+					solvers = nil
+					for _, n := range names {
+						sv, err := smt.NewSolver(n)
+						must(err)
+						solvers = append(solvers, sv)
+					}
+					cur = strings.Join(names, ",")
 					if *dumpSMT != "" {
 						f, _ := os.Create(*dumpSMT)
-						s1.Log = f
+						solvers[0].Log = f
 					}
-				}
-				if tc.Alt != curS2 {
-					if s2 != nil {
-						s2.Close()
-						s2 = nil
-					}
-					if tc.Alt != "" {
-						s2, err = smt.NewSolver(tc.Alt)
-						must(err)
-					}
-					curS2 = tc.Alt
 				}
 				ro := sym.RunOpts{Rounds: tc.Rounds, TimeoutMs: tc.TimeoutMs, CrossCheck: tc.CrossCheck}
 				if ro.TimeoutMs == 0 {
@@ -183,11 +175,10 @@ func main() {
 				ro.Opts.PruneTimeout = tc.Prune
 				ro.Opts.MaxMake = tc.MaxMake
 				ro.Opts.Stubs = j.h.Stubs
-				s1.Seconds, s1.Queries = 0, 0
-				if s2 != nil {
-					s2.Seconds, s2.Queries = 0, 0
+				for _, sv := range solvers {
+					sv.Seconds, sv.Queries = 0, 0
 				}
-				res, req, err := sym.RunCase(prog, pkg, j.h.Func, j.shape, ro, s1, s2)
+				res, req, err := sym.RunCase(prog, pkg, j.h.Func, j.shape, ro, solvers)
 				if err != nil {
 					fmt.Fprintln(os.Stderr, "error:", err)
 				}
@@ -230,11 +221,8 @@ func main() {
 				mu.Unlock()
 				finishJob()
 			}
-			if s1 != nil {
-				s1.Close()
-			}
-			if s2 != nil {
-				s2.Close()
+			for _, sv := range solvers {
+				sv.Close()
 			}
 		}(w)
 	}
@@ -413,30 +401,30 @@ func main() {
 			"wall_s": wall, "violations": nviol,
 			"assumptions": append(append([]string{"sequential consistency for all shared accesses", "go/ssa (x/tools v0.29.0) reflects the compiled code", "SMT solvers z3 4.8.12 / cvc5 1.0 are sound"}, pc.Assumptions...), sl...),
 			"coverage": map[string]interface{}{
-				"evaluations":         queries["sat"] + queries["unsat"],
-				"distinct_nontrivial": nontrivial,
-				"rule": "one evaluation = one SMT query with a definite answer over the symbolic encoding of the harness (all inputs/schedules within the bounds at once); a case = one (harness, shape assignment); it counts as non-trivial when it passed and every reachability witness (vfCover) of the case was satisfiable",
-				"samples":             samples,
-				"explanation":         "bounded symbolic execution of the real functions from go/ssa; unsat = holds for every input/schedule within the stated bounds",
-				"harness_cases":       len(results),
-				"obligations":         obl,
-				"discharged":          dis,
-				"obligation_ids":      oblIDs,
-				"witnesses_sat":       covSat,
-				"witnesses_expected":  cov,
-				"unwinding_flags":     unw,
-				"queries_by_verdict":  queries,
-				"solver_seconds":      solverSec,
-				"symbolic_exec_seconds": execSec,
-				"functions_encoded":   fencoded,
-				"source_sha256":       srcHash,
-				"harnesses":           tcDesc,
-				"per_harness":         perHarness,
-				"bounds_notes":        nl,
-				"outside_the_claim":   pc.Outside,
+				"evaluations":             queries["sat"] + queries["unsat"],
+				"distinct_nontrivial":     nontrivial,
+				"rule":                    "one evaluation = one SMT query with a definite answer over the symbolic encoding of the harness (all inputs/schedules within the bounds at once); a case = one (harness, shape assignment); it counts as non-trivial when it passed and every reachability witness (vfCover) of the case was satisfiable",
+				"samples":                 samples,
+				"explanation":             "bounded symbolic execution of the real functions from go/ssa; unsat = holds for every input/schedule within the stated bounds",
+				"harness_cases":           len(results),
+				"obligations":             obl,
+				"discharged":              dis,
+				"obligation_ids":          oblIDs,
+				"witnesses_sat":           covSat,
+				"witnesses_expected":      cov,
+				"unwinding_flags":         unw,
+				"queries_by_verdict":      queries,
+				"solver_seconds":          solverSec,
+				"symbolic_exec_seconds":   execSec,
+				"functions_encoded":       fencoded,
+				"source_sha256":           srcHash,
+				"harnesses":               tcDesc,
+				"per_harness":             perHarness,
+				"bounds_notes":            nl,
+				"outside_the_claim":       pc.Outside,
 				"known_findings_reported": nknown,
-				"inconclusive_cases":  ninc,
-				"exhaustive":          false,
+				"inconclusive_cases":      ninc,
+				"exhaustive":              false,
 			},
 		}
 		eb, _ := json.MarshalIndent(ev, "", " ")
